@@ -18,6 +18,7 @@
 #include <sys/stat.h>
 #include <signal.h>
 #include <limits.h>
+#include <ctype.h>
 
 #ifndef HWV_WATCHDOG
 #define HWV_WATCHDOG 120
@@ -37,14 +38,36 @@ static void do_unhide(void)
   }
 }
 
+/* hwloc_topology_check() asserts: run it in a child; on abort the text of the failed assertion
+ * (stderr of the child) is kept in check_msg, reduced to [A-Za-z0-9_>!.-] */
+static char check_msg[160];
 static int check_child(hwloc_topology_t t)
 {
-  pid_t pid; int st = 0;
+  pid_t pid; int st = 0; int pfd[2]; char buf[2048]; ssize_t n, tot = 0;
   fflush(stdout);
+  check_msg[0] = 0;
+  if (pipe(pfd) < 0) return 0;
   pid = fork();
-  if (!pid) { hwloc_topology_check(t); _exit(0); }
+  if (!pid) { close(pfd[0]); dup2(pfd[1], 2); hwloc_topology_check(t); _exit(0); }
+  close(pfd[1]);
+  while (tot < (ssize_t)sizeof(buf) - 1 && (n = read(pfd[0], buf + tot, sizeof(buf) - 1 - (size_t)tot)) > 0) tot += n;
+  buf[tot] = 0;
+  while (read(pfd[0], check_msg, sizeof(check_msg)) > 0) ;   /* drain */
+  check_msg[0] = 0;
+  close(pfd[0]);
   waitpid(pid, &st, 0);
-  return WIFEXITED(st) && WEXITSTATUS(st) == 0;
+  if (WIFEXITED(st) && WEXITSTATUS(st) == 0) return 1;
+  {
+    char *a = strstr(buf, "Assertion `"), *e; size_t k = 0;
+    if (a) {
+      a += 11; e = strchr(a, '\'');
+      for (; a && *a && a != e && k < sizeof(check_msg) - 1; a++)
+        check_msg[k++] = (isalnum((unsigned char)*a) || strchr("_>!.-", *a)) ? *a : '_';
+    }
+    check_msg[k] = 0;
+    if (!k) snprintf(check_msg, sizeof(check_msg), "status%d", st);
+  }
+  return 0;
 }
 
 static char *save_env(const char *n) { const char *v = getenv(n); return v ? strdup(v) : NULL; }
@@ -74,7 +97,7 @@ static void xml_roundtrip(hwloc_topology_t t)
   printf("xmlrt export=%d load=%d\n", rc, rc2);
   if (rc2 == 0) {
     hwv_dump_topology(stdout, t2, 0);
-    printf("check2 %s\n", check_child(t2) ? "ok" : "abort");
+    if (check_child(t2)) printf("check2 ok\n"); else printf("check2 abort %s\n", check_msg);
   }
   hwloc_topology_destroy(t2);
   hwloc_free_xmlbuffer(t, buf);
@@ -123,7 +146,7 @@ int main(void)
     } else if (!strncmp(line, "dump", 4)) {
       if (loaded) hwv_dump_topology(stdout, t, line[4] ? atoi(line + 5) : 0); else printf("nodump\n");
     } else if (!strcmp(line, "check")) {
-      printf("check %s\n", !loaded || check_child(t) ? "ok" : "abort");
+      if (!loaded || check_child(t)) printf("check ok\n"); else printf("check abort %s\n", check_msg);
     } else if (!strcmp(line, "xmlrt")) {
       if (loaded) xml_roundtrip(t); else printf("xmlrt skipped\n");
     } else if (!strcmp(line, "destroy")) {
